@@ -76,7 +76,7 @@
 #        which is what `if c { return a; } rest` already produced for the first arm: `if c { a } else { rest }` is the same term.
 #   (C5) an empty vector (`vec![]`, `Vec::new()`, `Vector::empty()`) whose element type the table does not give by NAME is typed
 #        by the first `.push(x)` on it (rename-proof); a wrong guess cannot go unnoticed: the Gallina file would not type-check.
-#   (C6) a call `x.helper(args);` in statement position of a method that is not in the call table but is defined in the SAME impl
+#   (C6) a call `x.helper(args);` (or `Self::helper(args);` of an associated function) in statement position of a method that is not in the call table but is defined in the SAME impl
 #        block, returns (), has no `return`, and whose `&mut` arguments are all `&mut <variable>`, is the block
 #        { let p1 = arg1; ..; BODY[self := x; q := the variable passed for the `&mut` parameter q] } with every binder of BODY renamed
 #        apart (no capture): receiver and arguments are evaluated left to right before the body, `&mut` parameters are exclusive
@@ -85,9 +85,23 @@
 #   (C7) negation normal form of boolean expressions: `!(x && y)` = `!x || !y`, `!(x || y)` = `!x && !y` (the same operands are
 #        evaluated in the same order under short-circuiting), `!!x` = x, and `!(a < b)` = `a >= b` etc. on usize / isize / bool
 #        operands only (never on elements).
-# Not canonicalised on purpose (they remain noise, see the findings file): the ORDER of the loop-state tuple (declaration order:
-# exchanging two `let`s of loop-carried variables permutes it), statement order, boolean algebra (De Morgan), `while i != H`,
-# hoisting / inlining of fallible reads (they change the evaluation order of possible panics, which only a proof can discharge).
+#   (C8) the ORDER of the state tuple of a loop / of a falling-through `if`.  The translation threads the assigned variables in
+#        declaration order, so moving a declaration (to the point of first use, past another one) permuted the tuple.  The
+#        canonical order -- the order of the FIRST ASSIGNMENT inside the construct -- does not depend on declarations or names;
+#        r2c_table.STATE_ORDERS pins, per construct of the pristine source (loops and ifs numbered separately in source order),
+#        the permutation from the canonical order to the declaration order (generated by `translate_src.py --pin-state-orders`;
+#        by construction the pristine source translates to the same Gallina with and without the table).  Any order is a correct
+#        translation: one and the same list is used for the initial state, the pattern of the body and its result; a stale or
+#        wrong entry can only change the SHAPE (the equality lemma then fails), never the meaning.
+#   Proof side (Proofs/SrcEqBase.v): src_eq also commutes two index-checked reads (bind_swap; both can only fail with Panic Index)
+#        when the second step of one side is the first step of the other -- `let t = a[i] * b[j]; x[k] -= t` <-> `x[k] = x[k] - a[i] * b[j]`.
+#   The loop identities C1 / C2, the flip laws of C3 / C7 and the shape facts used by the invariance test of C1 are THEOREMS:
+#        Proofs/SrcEqCanon.v (pinned for C11: counter_up_while_is_for_ret, counter_up_while_is_for, counter_up1_while_is_for,
+#        counter_down_while_is_for_rev, countdown_for_is_for_rev, conditional_orientation, negation_normal_form, element_writes_keep_shape).
+# Not canonicalised on purpose (they remain noise, see the findings file): statement order, `while i != H`, hoisting / inlining of
+# FALLIBLE reads and calls (they change the evaluation order or the number of possible panics, which only a proof can discharge),
+# changes of the loop structure (re-indexing, flattening, rolling locals instead of a table), iterator adaptors (zip / enumerate /
+# iter_mut), `match` on integers.
 import re
 try:
     from translate import TieBroken
@@ -1489,7 +1503,7 @@ class Translator:
                 B = []; v = self.ex(e[1], env, B); return wrap(B, self.ctx.ret(env, v))
             if e[0] == "cont_expr": return self.ctx.cont(env)
             if e[0] == "block": return self.block(e[1], env, lambda env2, v: rest(env.merge(env2)))
-            if e[0] == "mcall":
+            if e[0] in ("mcall", "call"):
                 blk = self.inline_helper(e, env)
                 if blk is not None: return self.inlined(blk, env, lambda env2, v: rest(env.merge(env2)))
             B = []
@@ -1546,7 +1560,7 @@ class Translator:
             env_s, xv = env.declare(some[0][0][2][1], self.gname(some[0][0][2][1]), ts[1])
             return wrap(B, ("match", sc, [("Some %s" % xv.g, self.tail_expr(some[0][1], env_s, k)),
                                           ("None", self.tail_expr(none[0][1], env, k))]))
-        if e[0] == "mcall":
+        if e[0] in ("mcall", "call"):
             blk = self.inline_helper(e, env)
             if blk is not None: return self.inlined(blk, env, lambda env2, v: k(env.merge(env2), None))
         B = []
@@ -1568,29 +1582,36 @@ class Translator:
         (), contains no `return`, and every `&mut` argument is `&mut <variable>`:  the block
              { let p1 = arg1; ..; BODY[self := x, q := the variable passed for a `&mut` parameter q] }
         with all binders of BODY renamed apart.  None when the call is not of this kind (the call table applies, or refuses)."""
-        recv, name, args = e[1], e[2], e[3]
         items, hdr = getattr(self, "items", None), getattr(self, "impl_header", None)
         if items is None or hdr is None or getattr(self, "inline_depth", 0) >= 3: return None
-        rv = strip(recv)
-        if rv[0] != "var" or env.lookup(rv[1]) is None: return None
-        tr = env.lookup(rv[1]).ty
-        if tr != self.selfty or not isinstance(tr, str): return None
-        key = (tr, name, len(args))
-        if self.spec.get("methods", {}).get(key) or self.tb.METHODS.get(key): return None
-        if name in ("clone", "to_owned", "to_vec", "collect", "position", "unwrap", "spawn", "join", "sort_by_key", "iter", "map"): return None
+        if e[0] == "call":
+            # Self::helper(args): an associated function of the same impl block (no receiver)
+            if e[1][0] != "path" or len(e[1][1]) != 2 or e[1][1][0] != "Self": return None
+            name, args, rv = e[1][1][1], e[2], None
+            if self.spec.get("paths", {}).get(("Self::" + name, len(args))) or self.tb.PATHS.get(("Self::" + name, len(args))): return None
+        else:
+            recv, name, args = e[1], e[2], e[3]
+            rv = strip(recv)
+            if rv[0] != "var" or env.lookup(rv[1]) is None: return None
+            tr = env.lookup(rv[1]).ty
+            if tr != self.selfty or not isinstance(tr, str): return None
+            key = (tr, name, len(args))
+            if self.spec.get("methods", {}).get(key) or self.tb.METHODS.get(key): return None
+            if name in ("clone", "to_owned", "to_vec", "collect", "position", "unwrap", "spawn", "join", "sort_by_key", "iter", "map"): return None
         cands = [f for it in items if it[0] == "impl" and _norm(it[1]) == _norm(hdr) for f in it[2] if f[1] == name]
         if len(cands) != 1: return None
         fn = cands[0]
         params = fn[2]
-        if not params or params[0][0] != "self" or fn[3] is not None or len(params) - 1 != len(args): return None
+        has_self = bool(params) and params[0][0] == "self"
+        if has_self != (rv is not None) or fn[3] is not None or len(params) - (1 if has_self else 0) != len(args): return None
         body = fn_body_ast(fn, "%s (inlined into %s)" % (name, self.what))
         if contains_return(body): return None
         self.inline_count = getattr(self, "inline_count", 0) + 1
         suffix = "__h%d" % self.inline_count
         mapping = {b: b + suffix for b in binders_of(body, set())}
-        if rv[1] != "self": mapping["self"] = rv[1]
+        if rv is not None and rv[1] != "self": mapping["self"] = rv[1]
         lets = []
-        for (pname, pty, pmut), a in zip(params[1:], args):
+        for (pname, pty, pmut), a in zip(params[1:] if has_self else params, args):
             if pty.replace(" ", "").startswith("&mut"):
                 au = unparen(a)
                 if not (au[0] == "un" and au[1] == "&mut" and unparen(au[2])[0] == "var" and env.lookup(unparen(au[2])[1]) is not None): return None
